@@ -129,7 +129,7 @@ class USys:
         self.ctx.violation(sig, what, {"layer": "U", "history": _hist_with(st, op), "nh": self.nh, "extra": extra})
 
     def _opclass(self, op):
-        if op[0] in ("put", "copyin"):
+        if op[0] in ("put", "copyin", "setitem"):
             return f"{op[0]}[{KEYCLASS[op[2]]}]"
         if op[0] == "copyout":
             return f"copyout[{op[2]}]"
@@ -208,15 +208,21 @@ class USys:
             else:
                 ops.append(("close", n))
                 if m == "a":
+                    v0 = next(iter(self.vals))
                     for kn in self.keys:
                         for vn in self.vals:
                             ops.append(("put", n, kn, vn))
+                        ops.append(("setitem", n, kn, v0))  # h[k] = v, the mapping-style spelling of put
                 else:
                     ops.append(("put", n, "a", "x"))  # write through a read-only handle: must fail
         for n in born:
             if st.hmode.get(n) is None:
                 ops.append(("put", n, "b", "x"))  # write through a closed handle: must fail
                 break
+        # a closed handle goes through pickle (how worker processes get theirs) and replaces the original
+        for n in born:
+            if st.hmode.get(n) is None:
+                ops.append(("repickle", n))
         if self.copy:
             for n in names:
                 m = st.hmode.get(n)
@@ -282,7 +288,7 @@ class USys:
                 self.viol(st, op, "close-raised", f"close raised {exc_name(e)}: {e}")
                 ok = False
             st.hmode[name] = None
-        elif kind == "put":
+        elif kind in ("put", "setitem"):
             _, name, kn, vn = op
             key, val = KEYNAMES[kn], self.vals[vn]
             h = st.handles[name]
@@ -291,7 +297,10 @@ class USys:
             if must_fail:
                 pre_view = self.view(st)
             try:
-                h.put(key, val)
+                if kind == "put":
+                    h.put(key, val)
+                else:
+                    h[key] = val
             except Exception as e:
                 if not must_fail:
                     self.viol(st, op, "valid-put-raised", f"put of a new key raised {exc_name(e)}: {e}")
@@ -305,6 +314,17 @@ class USys:
                     ok = False
                 else:
                     st.model[key] = val
+        elif kind == "repickle":
+            _, name = op
+            try:
+                st.handles[name] = pickle.loads(pickle.dumps(st.handles[name]))
+            except Exception as e:
+                self.viol(st, op, "pickle-raised", f"pickling a closed UKVFile handle raised {exc_name(e)}: {e}")
+                ok = False
+            else:
+                if not st.handles[name].closed:
+                    # an unpickled handle that comes back open holds a stream nobody asked for; the model follows it
+                    st.hmode[name] = st.handles[name].mode if st.handles[name].mode in ("r", "a") else "r"
         elif kind == "copyout":
             ok = self._copyout(st, op, pre_bytes)
         elif kind == "copyin":
